@@ -142,9 +142,14 @@ def _create_derived_functions(
     - combinations of these
     """
 
-    # Create parent-child relationships
+    # Create parent-child relationships. Their source columns may also be time
+    # conversions of data columns (e.g., if `betreuungskost_y` is provided in the data
+    # instead of `betreuungskost_m`).
     aggregate_by_p_id_functions = _create_aggregate_by_p_id_functions(
-        user_and_internal_functions,
+        {
+            **create_time_conversion_functions(user_and_internal_functions, data_cols),
+            **user_and_internal_functions,
+        },
         aggregate_by_p_id_specs,
         data_cols,
     )
